@@ -2115,7 +2115,8 @@ class PseudoNetCDFFile(PseudoNetCDFSelfReg, object):
                 sliceo = tuple([
                     slice(si, si + 1 or None) if np.isscalar(si) else si
                     for si in sliceo])
-                newvals = varo[sliceo]
+                # asanyarray: see removeSingleton (0-d char variables)
+                newvals = np.asanyarray(varo[sliceo])
             try:
                 newvaro[...] = newvals
             except Exception:
@@ -2157,7 +2158,9 @@ class PseudoNetCDFFile(PseudoNetCDFSelfReg, object):
                           for dk in olddims])
             propd = dict([(pk, getattr(v, pk)) for pk in v.ncattrs()])
             ov = outf.createVariable(vk, v.dtype.char, newdims, **propd)
-            ov[...] = v[...][sidx]
+            # asanyarray: a numpy scalar b'' (empty cell of a char variable)
+            # cannot be assigned as a scalar into a 0-d 'c' array
+            ov[...] = np.asanyarray(v[...][sidx])
         return outf
 
     def __repr__(self):
